@@ -323,7 +323,70 @@ func genC13Par(g *gen) {
 	}
 }
 
+// streams through parseSourceCommand: key-addressed commands (all keys pass / some / none), SELECT, PING and commands without
+// keys in every order — in particular right behind a command that was dropped
+func genC13Seq(g *gen) {
+	n := g.pick(250, 4000)
+	for i := 0; i < n; i++ {
+		kw, kb := "-", hx([]byte("drop:"))
+		if i%3 == 0 {
+			kw, kb = hx([]byte("keep:")), "-"
+		}
+		key := func(mode int) []byte {
+			pre := []string{"keep:", "drop:", "other:"}[g.r.Intn(3)]
+			switch mode {
+			case 1: // passes
+				pre = "keep:"
+			case 2: // does not pass
+				pre = "drop:"
+			}
+			return []byte(pre + strconv.Itoa(g.r.Intn(100)))
+		}
+		var cmds []c03SrcCmd
+		db := 0
+		for c := 0; c < 3+g.r.Intn(9); c++ {
+			mode := g.r.Intn(3)
+			switch g.r.Intn(9) {
+			case 0:
+				db = g.r.Intn(6)
+				cmds = append(cmds, c03SrcCmd{name: "select", args: [][]byte{[]byte(strconv.Itoa(db))}})
+			case 1:
+				cmds = append(cmds, c03SrcCmd{name: "ping"})
+			case 2:
+				cmds = append(cmds, c03SrcCmd{name: []string{"flushdb", "flushall", "publish"}[g.r.Intn(3)]})
+				if cmds[len(cmds)-1].name == "publish" {
+					cmds[len(cmds)-1].args = [][]byte{[]byte("ch"), []byte("m")}
+				}
+			case 3:
+				var a [][]byte
+				for k := 0; k < 1+g.r.Intn(4); k++ {
+					a = append(a, key(mode))
+				}
+				cmds = append(cmds, c03SrcCmd{name: []string{"del", "unlink"}[g.r.Intn(2)], args: a})
+			case 4:
+				var a [][]byte
+				for k := 0; k < 1+g.r.Intn(3); k++ {
+					a = append(a, key(mode), []byte("v"))
+				}
+				cmds = append(cmds, c03SrcCmd{name: "mset", args: a})
+			default:
+				cmds = append(cmds, c03SrcCmd{name: []string{"set", "incr", "lpush", "hset", "sadd"}[g.r.Intn(5)], args: [][]byte{key(mode), []byte("v")}})
+				if n := cmds[len(cmds)-1].name; n == "incr" {
+					cmds[len(cmds)-1].args = cmds[len(cmds)-1].args[:1]
+				} else if n == "hset" {
+					cmds[len(cmds)-1].args = append(cmds[len(cmds)-1].args, []byte("w"))
+				}
+			}
+			if g.r.Intn(4) == 0 {
+				cmds[len(cmds)-1].name = strings.ToUpper(cmds[len(cmds)-1].name)
+			}
+		}
+		g.emit("seq tdb=-1,fw=-,fb=-,lua=0,kw=%s,kb=%s %d %d %s", kw, kb, []int{0, 0, 2}[g.r.Intn(3)], []int{0, 1000}[g.r.Intn(2)], c03FmtCmds(cmds))
+	}
+}
+
 func genC13(g *gen) {
+	genC13Seq(g)
 	genC13Par(g)
 	// the commands: what the running table holds, plus the 65 names of the command reference
 	names := map[string]bool{}
@@ -543,6 +606,12 @@ func c13Bounded(f func() string) string {
 func runC13(f []string) string {
 	if len(f) < 4 {
 		return "badcase"
+	}
+	if f[0] == "seq" {
+		// seq <pcfg> <startDb> <base> <cmds>: a command STREAM through the real parseSourceCommand (the caller of the key filter
+		// in incremental sync), same line format as C03's `parse`: the verdict on a command does not depend on its neighbours
+		defer func() { conf.Options.FilterKeyWhitelist, conf.Options.FilterKeyBlacklist = nil, nil }()
+		return c03RunParseCase(f)
 	}
 	conf.Options.FilterKeyWhitelist = c13ParseList(f[1])
 	conf.Options.FilterKeyBlacklist = c13ParseList(f[2])
